@@ -43,6 +43,7 @@ type phase struct {
 	Test   string // test function
 	Inject bool   // run the yield injector over the scratch copy
 	Race   bool   // build with -race, free-running goroutines
+	Cpu    int    // GOMAXPROCS of the worker (-test.cpu), default 1
 	// QuickChecks is the number of rapid checks per worker in the quick tier.
 	QuickChecks int
 	// ThoroughChecks is the number of rapid checks per worker and round in the thorough tier.
@@ -95,6 +96,25 @@ var props = map[string]propCfg{
 		Stub:   []string{"database/sql driver and store (SimDB)"},
 		Assume: []string{"identifiers come from an alphabet that cannot collide with statement syntax (no escape rune, comma, parenthesis)", "Precision(p) is checked as |got-want| <= 0.5*10^-p for |want| <= 1e9 only"},
 	},
+	"C01": {
+		ID: "C01", Level: "exploration",
+		Rule:   "cases = (1..2 base frames of all column types incl. nulls, a sequentially built family of derived frames/groupers/views that share column and index storage, 1..3 simulated clients each running a program of operations whose receivers are picked among the members existing at that moment, a PCT or random-walk schedule over the loop-level scheduling points injected into a scratch copy of qframe); oracle I1: every member and every slice handed to New equals the snapshot taken at its creation, checked after every operation and at sampled scheduler steps while other clients are inside an operation; non-trivial = at least one derived member exists (storage is shared); distinct = distinct (build ops, programs, context-switch sequence)",
+		Phases: []phase{{Engine: "family", Test: "TestC01", Inject: true, QuickChecks: 40000, ThoroughChecks: 100000}},
+		Real:   commonReal,
+		Stub:   []string{"caller-thread scheduler (cooperative, one baton; PCT / random walk)", "scheduling points: simhook.Yield inserted by go/ast at every for/range body of a scratch copy (never in /repo)", "hash function (seeded good hash via verif hook) and math/rand seed, so that step counts replay across processes"},
+		Assume: []string{"yields sit at loop heads: interference that needs a switch between two straight-line statements of one iteration is left to the race engine (VERIF_YIELD_FINE=1 adds yields before indexed/selector assignments)", "Append is excluded (documented as not to be used, not listed by C01)"},
+	},
+	"C11": {
+		ID: "C11", Level: "exploration",
+		Rule: "deterministic half: same world as C01 with 2..4 clients; oracle I2: the canonical result of every operation executed under the schedule equals the result of the same operation re-run alone on the same operands (Distinct/GroupBy/Aggregate compared as sets), plus I1; non-trivial = at least one context switch pre-empted a client inside an operation; distinct = distinct (programs, build ops, context-switch sequence). Race half: the same generated programs with 2..8 free-running goroutines against an uninstrumented -race build (GORACE=halt_on_error), plus the same I2 comparison.",
+		Phases: []phase{
+			{Engine: "family", Test: "TestC11", Inject: true, QuickChecks: 40000, ThoroughChecks: 100000},
+			{Engine: "race", Test: "TestC11Race", Race: true, Cpu: 4, QuickChecks: 1500, ThoroughChecks: 6000},
+		},
+		Real:   commonReal,
+		Stub:   []string{"caller-thread scheduler (cooperative) in the deterministic half; the Go runtime scheduler in the race half (real, not controlled: see DESIGN.md §2.4)", "scheduling points injected at loops of a scratch copy", "hash function and math/rand seed"},
+		Assume: []string{"misuse is out of scope: user code mutating an eval.Context or a config slice while qframe reads it", "the race half observes real executions; its repeatability rests on happens-before detection being timing-independent"},
+	},
 	"C04": {
 		ID: "C04", Level: "exploration",
 		Rule:   "cases = (generated frame 0..40 rows quick / 0..300 thorough incl. nulls, empty vs null strings, 0.0/-0.0, two NaN encodings, enums; scramble so that physical and logical order differ; any subset and order of key columns; Null setting; hash flavour: real memhash | seeded good hash | masked to 0..4 bits (collision storms) | low-32-bit clashes | seed-blind (multi-column keys collide) | length-only | high-32-only; math/rand seed); oracle = a dozen-line reference partition (Go map in frame order) for QFrames() and for Aggregate with built-in and recording user functions; a case is non-trivial when there are >=2 classes and the table saw >=1 insert collision or >=1 growth step (read from Grouper.Stats); distinct = distinct (classes, flavour, collision/relocation counts, keys, Null)",
@@ -132,6 +152,26 @@ func main() {
 		os.Exit(cmdReplay(os.Args[2:]))
 	case "selftest":
 		os.Exit(cmdSelftest(os.Args[2:]))
+	case "build":
+		// development aid: vcheck build <ID> <dir> leaves the engine binaries (and the scratch copy) in <dir>
+		if len(os.Args) < 4 {
+			usage()
+		}
+		cfg, ok := props[os.Args[2]]
+		if !ok {
+			usage()
+		}
+		dir, _ := filepath.Abs(os.Args[3])
+		os.MkdirAll(dir, 0o755)
+		sc := &scratch{dir: dir}
+		for _, ph := range cfg.Phases {
+			bin, info, err := build(sc, ph)
+			if err != nil {
+				fmt.Fprintln(os.Stderr, err)
+				os.Exit(2)
+			}
+			fmt.Println(bin, info)
+		}
 	case "list":
 		ids := make([]string, 0, len(props))
 		for id := range props {
@@ -290,7 +330,11 @@ func build(sc *scratch, ph phase) (bin string, info map[string]interface{}, err 
 	if ph.Race {
 		bin = filepath.Join(sc.dir, ph.Engine+".race.test")
 	}
-	args := []string{"test", "-c", "-tags", "verif", "-trimpath", "-modfile", modfile, "-o", bin}
+	tags := "verif"
+	if ph.Inject {
+		tags = "verif,yieldinject"
+	}
+	args := []string{"test", "-c", "-tags", tags, "-trimpath", "-modfile", modfile, "-o", bin}
 	if ph.Race {
 		args = append(args, "-race")
 	}
@@ -357,7 +401,11 @@ func runWorker(bin string, sc *scratch, id, tier string, ph phase, round, w int,
 		res.infraErr = err.Error()
 		return res
 	}
-	args := []string{"-test.run", "^" + ph.Test + "$", "-test.count=1", "-test.cpu=1",
+	cpu := "1"
+	if ph.Cpu > 0 {
+		cpu = strconv.Itoa(ph.Cpu)
+	}
+	args := []string{"-test.run", "^" + ph.Test + "$", "-test.count=1", "-test.cpu=" + cpu,
 		"-test.timeout", timeout.String(),
 		"-rapid.checks", strconv.Itoa(checks), "-rapid.seed", strconv.FormatUint(seed, 10), "-rapid.shrinktime", "45s"}
 	args = append(args, extraArgs...)
@@ -508,6 +556,9 @@ func cmdRun(args []string) int {
 	var seeds []uint64
 	infra := false
 	for pi, ph := range cfg.Phases {
+		if only := os.Getenv("VERIF_PHASE"); only != "" && only != ph.Engine {
+			continue // development aid: run one phase only
+		}
 		bin, info, err := build(sc, ph)
 		info["engine"] = ph.Engine
 		info["test"] = ph.Test
@@ -609,6 +660,7 @@ type replayMeta struct {
 	Tier      string   `json:"tier"`
 	Inject    bool     `json:"inject"`
 	Race      bool     `json:"race"`
+	Cpu       int      `json:"cpu,omitempty"`
 	Seed      uint64   `json:"worker_seed"`
 	Signature string   `json:"signature"`
 	Message   string   `json:"message"`
@@ -657,7 +709,7 @@ func merge(cfg propCfg, tier string, seed uint64, seeds []uint64, all []*workerR
 			ph := phaseOf(cfg, r)
 			base := filepath.Join(verifDir, "replays", fmt.Sprintf("%s-%s-s%d", cfg.ID, sanitize(r.signature), r.seed))
 			replay := base + ".fail"
-			meta := replayMeta{Property: cfg.ID, Engine: ph.Engine, Test: ph.Test, Tier: tier, Inject: ph.Inject, Race: ph.Race, Seed: r.seed, Signature: r.signature, Message: r.message, Env: ph.Env, Kind: "rapid-failfile", Checks: r.checks}
+			meta := replayMeta{Property: cfg.ID, Engine: ph.Engine, Test: ph.Test, Tier: tier, Inject: ph.Inject, Race: ph.Race, Cpu: ph.Cpu, Seed: r.seed, Signature: r.signature, Message: r.message, Env: ph.Env, Kind: "rapid-failfile", Checks: r.checks}
 			if r.failfile != "" {
 				b, _ := os.ReadFile(r.failfile)
 				os.WriteFile(replay, b, 0o644)
@@ -790,7 +842,7 @@ func cmdReplay(args []string) int {
 		fmt.Fprintln(os.Stderr, "vcheck:", err)
 		return 2
 	}
-	ph := phase{Engine: meta.Engine, Test: meta.Test, Inject: meta.Inject, Race: meta.Race, Env: meta.Env}
+	ph := phase{Engine: meta.Engine, Test: meta.Test, Inject: meta.Inject, Race: meta.Race, Env: meta.Env, Cpu: meta.Cpu}
 	bin, _, err := build(sc, ph)
 	if err != nil {
 		fmt.Fprintln(os.Stderr, "vcheck:", err)
@@ -805,7 +857,11 @@ func cmdReplay(args []string) int {
 		extra = []string{"-rapid.nofailfile"}
 	}
 	for i := 0; i < tries; i++ {
-		r := runWorker(bin, sc, meta.Property, meta.Tier, ph, 0, i, meta.Seed, 1, 30*time.Minute, extra)
+		checks := 1
+		if meta.Kind != "rapid-failfile" && meta.Checks > 0 {
+			checks = meta.Checks
+		}
+		r := runWorker(bin, sc, meta.Property, meta.Tier, ph, 0, i, meta.Seed, checks, 30*time.Minute, extra)
 		if r.signature != "" {
 			same := r.signature == meta.Signature
 			fmt.Printf("VIOLATION property=%s replay=%s\n  reproduced signature=%s (recorded %s, identical=%v)\n  %s\n", meta.Property, path, r.signature, meta.Signature, same, r.message)
